@@ -367,7 +367,7 @@ def replay_histories(cases, batch=250, procs=3):
     return events, index, raw
 
 
-def validate_by_history(events, index, workdir, shards, name="trace"):
+def validate_by_history(events, index, workdir, shards, name="trace", module="trace/Trace_Snapshot"):
     """Trace_Snapshot is stateful per history: shard on history boundaries."""
     core.check_i32(events)
     hids = sorted(index)
@@ -386,7 +386,7 @@ def validate_by_history(events, index, workdir, shards, name="trace"):
     def one(k, first, last):
         p = os.path.join(workdir, f"{name}.{k}.ndjson")
         core.write_ndjson(p, events[first - 1:last])
-        rej, r = core.validate("trace/Trace_Snapshot", p, n_events=last - first + 1, xmx="3g", timeout=3400)
+        rej, r = core.validate(module, p, n_events=last - first + 1, xmx="3g", timeout=3400)
         return first, r
 
     with cf.ThreadPoolExecutor(max_workers=len(parts)) as ex:
@@ -394,12 +394,15 @@ def validate_by_history(events, index, workdir, shards, name="trace"):
         for f in futs:
             results.append(f.result())
     rejected, mismatch, selfcheck = {}, set(), set()
+    allrej = []
+    validate_by_history.all_rejections = allrej
     import re
     for first, r in results:
         for line in r.out.splitlines():
             m = re.match(r'<<"REJECT", (\d+), "([^"]*)">>', line)
             if m:
-                rejected[first - 1 + int(m.group(1))] = m.group(2)
+                rejected.setdefault(first - 1 + int(m.group(1)), m.group(2))
+                allrej.append((first - 1 + int(m.group(1)), m.group(2)))
             m = re.match(r'<<"DESIGN-MISMATCH", (\d+)>>', line)
             if m:
                 mismatch.add(first - 1 + int(m.group(1)))
@@ -409,35 +412,174 @@ def validate_by_history(events, index, workdir, shards, name="trace"):
     return rejected, mismatch, selfcheck, [r for _, r in results]
 
 
+# ------------------------------------------------------------------ history and REST views
+
+UNKNOWN = "abcdef"
+
+
+def filter_config(flt):
+    """filter mode of Gen_Snapshot -> (TOML text of the output filter, history switched on)."""
+    a = ["%06x" % x for x in ADDR]
+    return {"none": ("", True), "off": ("", False),
+            "df17": ('df_filter = ["17"]', True), "df17_20": ('df_filter = ["17", "20"]', True),
+            "ac1": ('aircraft_filter = ["%s"]' % a[0], True),
+            "ac12": ('aircraft_filter = ["%s", "%s"]' % (a[0], a[1]), True)}[flt]
+
+
+def nofr(obj):
+    return digest({k: v for k, v in (obj or {}).items() if k != "frame"})
+
+
+def web_requests_for(case):
+    """`web` requests: the whole history (probed at chosen steps), then every aircraft alone
+    (probed after every record)."""
+    hist, na = case["h"], case["na"]
+    toml, on = filter_config(case["flt"])
+    n = len(hist)
+    recs = [{"ts": float(r["t"]), "frame": concrete(r["a"], r["k"], g + 1), "serial": g + 1}
+            for g, r in enumerate(hist)]
+    probes = list(range(1, n + 1)) if n <= 3 else sorted({max(1, n // 2), n})
+    since = hist[(n - 1) // 2]["t"]
+    queries = [{"icao24": "%06x" % ADDR[b - 1], "since": None} for b in range(1, na + 1)]
+    queries += [{"icao24": "%06x" % ADDR[b - 1], "since": float(since)} for b in range(1, na + 1)]
+    queries.append({"icao24": UNKNOWN, "since": None})
+    base = {"cmd": "web", "reference": list(REF), "toml": toml, "history": on}
+    reqs = [dict(base, records=recs, probe_at=probes, queries=queries)]
+    aircraft = sorted({r["a"] for r in hist})
+    for b in aircraft:
+        own = [x for x, r in zip(recs, hist) if r["a"] == b]
+        reqs.append(dict(base, records=own, probe_at=list(range(1, len(own) + 1)),
+                         queries=[{"icao24": "%06x" % ADDR[b - 1], "since": None}]))
+    return reqs, aircraft
+
+
+def track_view(t):
+    rep = t["reply"]
+    body = rep.get("body")
+    q = t["query"]
+    out = {"x": q["icao24"], "since": -1 if q.get("since") is None else int(q["since"]),
+           "known": isinstance(body, list), "ids": [], "ds": []}
+    if rep.get("status") != 200 or "error" in rep:
+        out["x"] = "error:" + out["x"]
+    for e in body or []:
+        md = e.get("metadata") or [{}]
+        out["ids"].append(int(md[0].get("serial", 0)) if md else 0)
+        out["ds"].append(nofr(e))
+    return out
+
+
+def listing(rep, field=None):
+    body = rep.get("body")
+    if not isinstance(body, list):
+        return ["?"]
+    return [str(x.get(field, "?")) if field else str(x) for x in body]
+
+
+def hist_events_for(hid, case, replies, aircraft):
+    hist, na = case["h"], case["na"]
+    addr = ["%06x" % x for x in ADDR]
+    solo = []
+    for b in range(1, na + 1):
+        col = []
+        if b in aircraft:
+            for st in replies[1 + aircraft.index(b)]["steps"]:
+                v = track_view(st["probe"]["tracks"][0])
+                col.append({"known": v["known"], "ids": v["ids"], "ds": v["ds"]})
+        solo.append(col)
+    evs = [{"e": "begin", "h": hid, "na": na, "n": len(hist), "addr": addr[:na], "flt": case["flt"],
+            "on": filter_config(case["flt"])[1], "solo": solo}]
+    for i, (r, st) in enumerate(zip(hist, replies[0]["steps"])):
+        js = st["json"] if st["decoded"] else None
+        icao = (js or {}).get("icao24")
+        evs.append({"e": "rec", "h": hid, "i": i + 1, "a": r["a"], "k": r["k"], "t": r["t"],
+                    "icao": icao if isinstance(icao, str) else "none", "kept": bool(st["is_in"]),
+                    "d": nofr(js)})
+        if "probe" in st:
+            p = st["probe"]
+            evs.append({"e": "probe", "h": hid, "i": i + 1, "home": listing(p["home"]),
+                        "all": listing(p["all"], "icao24"), "keys": p["keys"],
+                        "tracks": [track_view(t) for t in p["tracks"]], "sens": digest(p["sensors"])})
+    return evs
+
+
+def replay_web(cases, batch=250, procs=3):
+    core.build_jet()
+    jobs = []
+    for lo in range(0, len(cases), batch):
+        part = cases[lo:lo + batch]
+        reqs, spans = [], []
+        for c in part:
+            if len(c["h"]) > MAXLEN:
+                raise core.ToolError("history longer than the distinct value ranges allow")
+            rq, ac = web_requests_for(c)
+            spans.append((len(reqs), len(rq), ac))
+            reqs += rq
+        jobs.append((lo, part, reqs, spans))
+    with cf.ThreadPoolExecutor(max_workers=procs) as ex:
+        outs = list(ex.map(lambda j: core.run_jet(j[2]), jobs))
+    events, index, raw = [], {}, {}
+    for (lo, part, reqs, spans), (out, rc) in zip(jobs, outs):
+        if len(out) != len(reqs):
+            raise core.ToolError(f"driver answered {len(out)} of {len(reqs)} web requests (rc={rc})")
+        for k, (c, (s, n, ac)) in enumerate(zip(part, spans)):
+            hid = lo + k + 1
+            rep = out[s:s + n]
+            if any("steps" not in x for x in rep) or len(rep[0]["steps"]) != len(c["h"]):
+                raise core.ToolError("driver reply malformed for web history %d: %s" % (hid, json.dumps(rep)[:300]))
+            evs = hist_events_for(hid, c, rep, ac)
+            index[hid] = (len(events) + 1, len(events) + len(evs))
+            events += evs
+            raw[hid] = rep
+    return events, index, raw
+
+
 # ------------------------------------------------------------------ the check
 
 MC_GROUPS = 8
 MUTANTS = [("miskey", 5, "Property"), ("count_skip", 7, "Property"), ("leak_clear", 1, "Isolation")]
+HMUTANTS = [("hist_miskey", "Histories"), ("hist_prefilter", "Views"), ("track_all", "Views")]
 
 
 def model_check(run, thorough):
     """M: the design level has the property (all kind groups), and the spec mutants are refuted."""
-    plans = [dict(MC_NA=2, MC_LEN=3, MC_DT=1), dict(MC_NA=3, MC_LEN=3, MC_DT=0)] if not thorough else \
+    plans = [dict(MC_NA=2, MC_LEN=3, MC_DT=1)] if not thorough else \
             [dict(MC_NA=3, MC_LEN=3, MC_DT=1), dict(MC_NA=3, MC_LEN=4, MC_DT=0), dict(MC_NA=2, MC_LEN=5, MC_DT=0)]
     # the longest plan (length 5) only for the groups in which records interact through the design
     # (surface position resets the altitude, Comm-B 6,0 keeps the vertical rate, call sign validity)
     jobs = [dict(p, MC_GROUP=g) for p in plans for g in range(1, MC_GROUPS + 1)
             if p["MC_LEN"] < 5 or g in (1, 4, 8)]
     jobs.sort(key=lambda j: -j["MC_LEN"])
+    # history / REST views / expiry (MC_History): 2 aircraft, filter on/off per record, history on/off
+    hplans = [dict(MC_LEN=2, MC_KINDS=7, MC_DT=1), dict(MC_LEN=3, MC_KINDS=5, MC_DT=0)] if not thorough else \
+             [dict(MC_LEN=3, MC_KINDS=7, MC_DT=1), dict(MC_LEN=4, MC_KINDS=5, MC_DT=0)]
+    jobs = [dict(j, MOD="mc/MC_History") for j in hplans if j["MC_LEN"] >= 4] + \
+           [dict(j, MOD="mc/MC_Snapshot") for j in jobs] + \
+           [dict(j, MOD="mc/MC_History") for j in hplans if j["MC_LEN"] < 4]
     par = 8 if thorough else 4
     with cf.ThreadPoolExecutor(max_workers=par) as ex:
-        res = list(ex.map(lambda env: core.tlc_ok("mc/MC_Snapshot", cfg="mc/MC_Snapshot.cfg", env=env,
-                                                  workers=2 if env["MC_LEN"] >= 5 else 1, xmx="3g",
-                                                  timeout=3000), jobs))
+        res = list(ex.map(lambda env: core.tlc_ok(env["MOD"], cfg=env["MOD"] + ".cfg",
+                                                  env={k: v for k, v in env.items() if k != "MOD"},
+                                                  workers=2 if env["MC_LEN"] >= 5 or
+                                                  (env["MOD"].endswith("History") and env["MC_LEN"] >= 4) else 1,
+                                                  xmx="3g", timeout=3000), jobs))
     for r in res:
         run.add_tlc(r)
-    mc = {"runs": len(res), "states": sum(r.distinct for r in res), "plans": plans}
+    mc = {"runs": len(res), "states": sum(r.distinct for r in res), "plans": plans, "history_plans": hplans,
+          "history_states": sum(r.distinct for r, j in zip(res, jobs) if j["MOD"].endswith("History"))}
     refuted = {}
     with cf.ThreadPoolExecutor(max_workers=3) as ex:
         mres = list(ex.map(lambda m: core.tlc("mc/MC_Snapshot", cfg=f"mc/MC_Snapshot_{m[0]}.cfg", workers=1,
                                               xmx="3g", timeout=900,
                                               env=dict(MC_NA=2, MC_LEN=3, MC_DT=1, MC_GROUP=m[1])), MUTANTS))
     for (name, group, inv), r in zip(MUTANTS, mres):
+        if r.ok or f"Invariant {inv} is violated" not in r.out:
+            raise core.ToolError(f"spec mutant {name} was not refuted by invariant {inv}: M lost its teeth")
+        refuted[name] = {"invariant": inv, "after_states": r.distinct}
+    with cf.ThreadPoolExecutor(max_workers=3) as ex:
+        hres = list(ex.map(lambda m: core.tlc("mc/MC_History", cfg=f"mc/MC_History_{m[0]}.cfg", workers=1,
+                                              xmx="3g", timeout=900,
+                                              env=dict(MC_LEN=3, MC_KINDS=5, MC_DT=0)), HMUTANTS))
+    for (name, inv), r in zip(HMUTANTS, hres):
         if r.ok or f"Invariant {inv} is violated" not in r.out:
             raise core.ToolError(f"spec mutant {name} was not refuted by invariant {inv}: M lost its teeth")
         refuted[name] = {"invariant": inv, "after_states": r.distinct}
@@ -451,12 +593,15 @@ def generate(run, thorough):
                      env=dict(GEN_MODE="short", GEN_DTS=1 if thorough else 0))
     short = g1.printed_json()
     g2 = core.tlc_ok("gen/Gen_Snapshot", cfg="gen/Gen_Snapshot.cfg", workers=1, xmx="3g", timeout=1800,
-                     env=dict(GEN_MODE="random"), simulate=5000 if thorough else 600, depth=130,
+                     env=dict(GEN_MODE="random"), simulate=5000 if thorough else 400, depth=130,
                      seed=run.seed)
     rnd = g2.printed_json()
-    if not short or not rnd:
+    g3 = core.tlc_ok("gen/Gen_Snapshot", cfg="gen/Gen_Snapshot.cfg", workers=1, xmx="3g", timeout=1800,
+                     env=dict(GEN_MODE="hshort"))
+    hshort = g3.printed_json()
+    if not short or not rnd or not hshort:
         raise core.ToolError("Gen_Snapshot printed no histories")
-    return short, rnd
+    return short, rnd, hshort
 
 
 def describe(case, raw, step=None):
@@ -514,6 +659,57 @@ def judge(run, cases, workdir, shards, name="trace", replayed=None):
     return events, index, raw, by_hist, mm_hist
 
 
+WEB_REQUIRES = {
+    "web_home": "GET / lists exactly the addresses that have an entry in the table (each once)",
+    "web_all": "GET /all shows one state vector per address seen",
+    "track_known": "GET /track answers null exactly for addresses that were never seen",
+    "track_foreign": "GET /track?icao24=x returns only records whose JSON shows address x",
+    "track_filtered": "records dropped by the output filter (or any record when history is off) never enter a history",
+    "track_order": "the history is in the order the records were processed",
+    "track_content": "each element equals the JSON of the record it was stored from (frame emptied)",
+    "track_since": "a reply restricted by since holds the records of the unrestricted reply later than since",
+    "track_isolation": "the history of an aircraft is the same whether or not other aircraft are interleaved",
+}
+
+
+def describe_web(case, raw, ev=None):
+    reqs, _ = web_requests_for(case)
+    out = {"na": case["na"], "flt": case["flt"], "filter_toml": reqs[0]["toml"], "history_on": reqs[0]["history"],
+           "history": [{"i": i + 1, "aircraft": r["a"], "address": "%06x" % ADDR[r["a"] - 1], "kind": r["k"],
+                        "ts": r["t"], "frame": x["frame"]}
+                       for i, (r, x) in enumerate(zip(case["h"], reqs[0]["records"]))],
+           "reference": list(REF)}
+    if ev is not None:
+        st = raw[0]["steps"][ev["i"] - 1]
+        out["probe_after_step"] = ev["i"]
+        out["is_in_per_record"] = [s["is_in"] for s in raw[0]["steps"][:ev["i"]]]
+        out["replies"] = st.get("probe")
+    return out
+
+
+def judge_web(run, cases, workdir, shards, replayed=None):
+    events, index, raw = replayed or replay_web(cases)
+    rejected, mismatch, selfcheck, results = validate_by_history(events, index, workdir, shards, name="hist",
+                                                                 module="trace/Trace_History")
+    allrej = list(validate_by_history.all_rejections)
+    for r in results:
+        run.add_tlc(r)
+    seen = set()
+    counts = {}
+    for i, clause in allrej:
+        ev = events[i - 1]
+        counts[clause] = counts.get(clause, 0) + 1
+        if (ev["h"], clause) in seen:
+            continue
+        seen.add((ev["h"], clause))
+        rep = describe_web(cases[ev["h"] - 1], raw[ev["h"]], ev)
+        rep["rejected_clause"] = clause
+        rep["property_requires"] = WEB_REQUIRES.get(clause, clause)
+        run.report({"clause": clause}, rep)
+    mm_hist = sorted({events[i - 1]["h"] for i in mismatch})
+    return events, raw, counts, mm_hist
+
+
 def coverage(events, cases):
     kinds, fields, inter, pos = set(), {}, 0, 0
     for ev in events:
@@ -532,14 +728,23 @@ def coverage(events, cases):
 
 def check(run):
     thorough = run.tier == "thorough"
-    short, rnd = generate(run, thorough)
+    short, rnd, hshort = generate(run, thorough)
     cases = short + rnd
+    wcases = hshort + rnd[:1500 if thorough else 200]
     # M (TLC processes) runs while the driver replays the histories; V follows
-    with cf.ThreadPoolExecutor(max_workers=1) as ex:
+    with cf.ThreadPoolExecutor(max_workers=2) as ex:
         fut = ex.submit(model_check, run, thorough)
+        futw = ex.submit(replay_web, wcases, 250, 3 if thorough else 2)
         replayed = replay_histories(cases, procs=6 if thorough else 4)
+        wreplayed = futw.result()
         mc = fut.result()
-    events, index, raw, by_hist, mm_hist = judge(run, cases, run.work, 8 if thorough else 4, replayed=replayed)
+    with cf.ThreadPoolExecutor(max_workers=1) as ex:
+        futw = ex.submit(judge_web, run, wcases, run.work, 2 if thorough else 1, wreplayed)
+        events, index, raw, by_hist, mm_hist = judge(run, cases, run.work, 6 if thorough else 3,
+                                                     replayed=replayed)
+        wevents, wraw, wcounts, wmm = futw.result()
+    probes = [e for e in wevents if e["e"] == "probe"]
+    wrecs = [e for e in wevents if e["e"] == "rec"]
     kinds, fields, inter, pos = coverage(events, cases)
     distinct = len({json.dumps(c, sort_keys=True) for c in cases if len({r["a"] for r in c["h"]}) > 1})
     n_rec = sum(1 for e in events if e["e"] == "rec")
@@ -564,9 +769,29 @@ def check(run):
                                "first": mm_hist[:5],
                                "note": "table compared with Snapshot!Step (which record each field stems from); "
                                        "informative only"},
+        "web_history": {
+            "histories": len(wcases), "histories_short_exhaustive": len(hshort),
+            "histories_per_filter_mode": {m: sum(1 for c in wcases if c["flt"] == m)
+                                          for m in sorted({c["flt"] for c in wcases})},
+            "records_replayed": len(wrecs),
+            "records_dropped_by_filter": sum(1 for e in wrecs if not e["kept"]),
+            "probes": len(probes),
+            "track_replies": sum(len(p["tracks"]) for p in probes),
+            "track_replies_null": sum(1 for p in probes for t in p["tracks"] if not t["known"]),
+            "track_replies_with_since": sum(1 for p in probes for t in p["tracks"] if t["since"] >= 0),
+            "track_elements": sum(len(t["ids"]) for p in probes for t in p["tracks"]),
+            "home_listings_non_empty_expected": sum(1 for p in probes if p["keys"]),
+            "rejections_per_clause": wcounts,
+            "design_conformance": {"histories_with_mismatch": len(wmm), "first": wmm[:5],
+                                   "note": "history = exactly the kept DF17/18/20/21 records, since strict; "
+                                           "informative only"},
+            "expiry": "specified and model-checked (MC_History: ExpirySemantics) but not bound to the code: the "
+                      "logic is an inline closure of main() reading the wall clock",
+        },
         "exhaustive": False,
         "exhaustive_parts": "spec: every history of the MC plans; code: every history of <= 2 records "
-                            "(2 aircraft, all 51 kinds)",
+                            "(2 aircraft, all 51 kinds); history/REST: every history of <= 2 records over 14 kinds "
+                            "x 6 filter modes",
         "samples": [describe(cases[0], raw[1]), describe(cases[len(short)], raw[len(short) + 1])],
     })
     run.assumptions += [
@@ -577,12 +802,26 @@ def check(run):
         "TLC checks that the values of different aircraft are distinct and that each frame shows its address",
         "entries are compared between the interleaved and the solo replay through a SHA-1 digest of the JSON "
         "that /all serves for the entry",
+        "history/REST part: the driver command `web` mirrors the main loop (update_snapshot, Filters::is_in, "
+        "store_history unless history is off) and calls web::icao24/all/track/sensors; 'kept' is Filters::is_in as "
+        "evaluated by the code (the filter itself is C11's subject); no TUI is drawn (non-interactive mode)",
+        "history expiry is not bound to the code (inline closure in main(), wall clock): spec only",
     ]
 
 
 def replay(run, path):
     with open(path) as f:
         doc = json.load(f)
+    if any("flt" in c for c in doc.get("cases", [])):          # history / REST view cases
+        wcases = [{"na": c["na"], "flt": c["flt"],
+                   "h": [{"a": r["aircraft"], "k": r["kind"], "t": r["ts"]} for r in c["history"]]}
+                  for c in doc["cases"]]
+        wevents, wraw, wcounts, wmm = judge_web(run, wcases, run.work, 1)
+        run.cov.update({"traces_validated_against_impl": len(wcases), "evaluations": len(wevents),
+                        "distinct_nontrivial": max(2, len(wcases)), "rule": "replay of recorded histories",
+                        "samples": [describe_web(wcases[0], wraw[1])], "states": max(run.tlc_states, 1),
+                        "transitions": max(run.tlc_transitions, 1), "rejections_per_clause": wcounts})
+        return run.finish()
     cases = []
     for c in doc.get("cases", []):
         cases.append({"na": c["na"], "h": [{"a": r["aircraft"], "k": r["kind"], "t": r["ts"]} for r in c["history"]]})
